@@ -569,6 +569,14 @@ pub fn name_strategy_with_long() -> BoxedStrategy<String> {
     prop_oneof![
         60 => name_strategy(),
         1 => (prop::sample::select(vec!["x", "é", "a.", "日"]), 40usize..80).prop_map(|(u, n)| u.repeat(n).chars().take(250 / u.len().max(1)).collect::<String>()),
+        // at and just below the limit itself: 251-255 bytes exactly
+        1 => (prop::sample::select(vec!["x", "é", "a.", "日", "😀"]), 251usize..=255).prop_map(|(u, total)| {
+            let mut s = u.repeat(total / u.len());
+            while s.len() < total {
+                s.push('x');
+            }
+            s
+        }),
     ]
     .boxed()
 }
